@@ -219,6 +219,7 @@ def check_context_limits(chk, F):
         chk.obligation(rid, not extra, ctx + "|extra",
                        "%s has limit checks the oracle does not know: %r" % (ctx, [(x[0], x[3]) for x in extra]))
     chk.sample({"context limit table": {k: [(t[0], "+".join(t[1]), t[2]) for t in v] for k, v in CONTEXT_LIMITS.items()}})
+    check_context_limit_grids(chk, F, rid)
     # the P2SH scriptSig limit on numbers: satisfaction + push of the redeem script against 1650, across the boundary
     try:
         p = [q for q in F.fn("check_local_policy_validity", file="miniscript/context.rs", allow_many=True) if "::Legacy as " in q][0]
@@ -252,6 +253,75 @@ def check_context_limits(chk, F):
         except Panic as e:
             chk.fail(rid, "Legacy|scriptsig-grid|%d+%d" % (sat, script), "panic: %s" % e, F.fns[p]["span"])
     chk.floor(rid, "scriptSig grid", n, 16)
+
+
+# figure kind per (context, function): how the bounded quantity is fed to the check on numbers
+NUMERIC_LIMITS = {
+    "Legacy": [("check_global_consensus_validity", "pk_cost", spec.MAX_SCRIPT_ELEMENT_SIZE),
+               ("check_local_consensus_validity", "ops", spec.MAX_OPS_PER_SCRIPT)],
+    "Segwitv0": [("check_global_consensus_validity", "pk_cost", spec.MAX_SCRIPT_SIZE),
+                 ("check_global_policy_validity", "pk_cost", spec.MAX_STANDARD_P2WSH_SCRIPT_SIZE),
+                 ("check_local_consensus_validity", "ops", spec.MAX_OPS_PER_SCRIPT),
+                 ("check_local_policy_validity", "witness_elements", spec.MAX_STANDARD_P2WSH_STACK_ITEMS)],
+    "Tap": [("check_global_consensus_validity", "pk_cost", spec.MAX_BLOCK_WEIGHT),
+            # BIP-342: the stack - what the witness brings plus what execution adds on top - holds at most 1000 elements
+            ("check_local_consensus_validity", "stack_sum", spec.MAX_STACK_SIZE)],
+    "BareCtx": [("check_global_consensus_validity", "pk_cost", spec.MAX_SCRIPT_SIZE),
+                ("check_local_consensus_validity", "ops", spec.MAX_OPS_PER_SCRIPT)],
+}
+
+
+def check_context_limit_grids(chk, F, rid):
+    """each per-context resource check on numbers across its limit (the figure rule above reads names only)"""
+    from ..interp import ok as ok_, some as some_
+    cur = {}
+    hooks = {"bitcoin::Weight::to_wu": lambda m_, a, c: spec.MAX_BLOCK_WEIGHT}
+    for q in F.fns:
+        if q.endswith("ExtData::sat_op_count"):
+            hooks[q] = lambda m_, a, c: some_(cur["ops"])
+        if q.endswith("::max_satisfaction_witness_elements") and "Miniscript" in q:
+            hooks[q] = lambda m_, a, c: ok_(cur["witness_elements"])
+    m = Machine(F, strict=True, hooks=hooks)
+    n = 0
+    for ctx, table in NUMERIC_LIMITS.items():
+        for fname, kind, limit in table:
+            ps = [p for p in F.fn(fname, file="miniscript/context.rs", allow_many=True) if ("::%s as " % ctx) in p]
+            if not ps:
+                chk.fail(rid, "%s|%s|grid|anchor" % (ctx, fname), "%s::%s not found" % (ctx, fname), kind="unanalysable")
+                continue
+            if kind == "stack_sum":
+                grid = [(limit - 2, 2), (limit - 1, 2), (limit, 0), (limit, 1), (0, limit), (0, limit + 1), (limit // 2, limit // 2),
+                        (limit // 2, limit // 2 + 1), (limit - 100, 100), (limit - 100, 101), (3, 2)]
+            else:
+                grid = [(0, 0), (limit - 1, 0), (limit, 0), (limit + 1, 0), (2 * limit, 0)]
+            for a, b in grid:
+                cur.update(ops=0, witness_elements=0)
+                sat = {"max_witness_stack_size": 0, "max_witness_stack_count": 0, "max_script_sig_size": 0, "max_exec_stack_count": 0,
+                       "max_exec_op_count": 0}
+                pk_cost = 0
+                if kind == "pk_cost":
+                    pk_cost = a
+                elif kind == "stack_sum":
+                    sat["max_witness_stack_count"], sat["max_exec_stack_count"] = a, b
+                else:
+                    cur[kind] = a
+                v = ms_value()
+                v.fields["ext"].fields["pk_cost"] = pk_cost
+                v.fields["ext"].fields["sat_data"] = Adt("std::option::Option", "Some", {"0": Adt(
+                    "miniscript::types::extra_props::SatData", "SatData", sat)})
+                key = "%s|%s|grid|%d+%d" % (ctx, fname, a, b)
+                try:
+                    r = m.call_path(ps[0], [v])
+                    n += 1
+                    chk.obligation(rid, (r.variant == "Err") == (a + b > limit), key,
+                                   "%s::%s with %s = %s (limit %d) answers %s" % (ctx, fname, kind, "%d + %d" % (a, b) if kind == "stack_sum" else a,
+                                                                                 limit, r.variant), F.fns[ps[0]]["span"])
+                except Unsupported as e:
+                    chk.fail(rid, "%s|%s|grid|unanalysable" % (ctx, fname), "unanalysable: %s" % e, where=e.where, kind="unanalysable")
+                    break
+                except Panic as e:
+                    chk.fail(rid, key, "panic: %s" % e, F.fns[ps[0]]["span"])
+    chk.floor(rid, "limit grid points", n, 50)
 
 
 def check_item_sizes(chk, F):
